@@ -112,21 +112,50 @@ theorem cut_sortBy {F : List Rng} (hF : RngWF F) :
 
 theorem blockSize_pos' (o : Nat) : 0 < 2 ^ (128 - o) := Nat.two_pow_pos _
 
+/-- W2 for one subnet: network `::` only as `::/0`, network `::ffff:0:0` only as `0.0.0.0/0` -/
+def W2At (s : SubnetDecl) : Prop := (s.net = 0 → s.ones = 0) ∧ (s.net = firstIPv4 → s.ones = 96)
+
+/-- `AddLocation` before the repair "only ::/0 and 0.0.0.0/0 are default routes": the two
+default-route tests looked at the network address only -/
+def addLocationOld (r : Rearranger) (ip ones : Nat) (loc : Bytes) : Rearranger :=
+  if ip = 0 then
+    { r with hasV6 := true,
+             points := r.points ++ [⟨0, ones, some loc, .start⟩, ⟨afterIPv4, ones, some loc, .start⟩] }
+  else if ip = firstIPv4 then
+    { r with hasV4 := true,
+             points := r.points ++ [⟨firstIPv4, ones, some loc, .start⟩, ⟨afterIPv4, ones, some loc, .stop⟩] }
+  else
+    let size := 2 ^ (128 - ones)
+    let start := ip / size * size
+    let last := start + size - 1
+    { r with points := r.points ++ [⟨start, ones, some loc, .start⟩]
+        ++ (if last = veryLastIP then [] else [⟨last + 1, ones, none, .stop⟩]) }
+
+/-- under W2 the repaired `AddLocation` coincides with the old one -/
+theorem addLocation_eq_old_of_W2 (r : Rearranger) {s : SubnetDecl} (hw : W2At s) :
+    addLocation r s.net s.ones s.loc = addLocationOld r s.net s.ones s.loc := by
+  unfold addLocation addLocationOld
+  by_cases h0 : s.net = 0
+  · rw [if_pos ⟨h0, hw.1 h0⟩, if_pos h0]
+  · rw [if_neg (fun h => h0 h.1), if_neg h0]
+    by_cases h4 : s.net = firstIPv4
+    · rw [if_pos ⟨h4, hw.2 h4⟩, if_pos h4]
+    · rw [if_neg (fun h => h4 h.1), if_neg h4]
+
 theorem addLocation_eq (r : Rearranger) (s : SubnetDecl) :
     addLocation r s.net s.ones s.loc =
-      { hasV4 := r.hasV4 || decide (s.net = firstIPv4), hasV6 := r.hasV6 || decide (s.net = 0),
+      { hasV4 := r.hasV4 || decide (s.net = firstIPv4 ∧ s.ones = 96),
+        hasV6 := r.hasV6 || decide (s.net = 0 ∧ s.ones = 0),
         points := r.points ++ ((rngOf s).flatMap gevents).map GEv.pt } := by
   unfold addLocation rngOf
-  by_cases h0 : s.net = 0
-  · have h4 : ¬ s.net = firstIPv4 := by rw [h0]; decide
-    rw [if_pos h0, if_pos h0]
-    simp [h0, gevents, GEv.pt, show (0 : Nat) ≠ firstIPv4 by decide]
+  by_cases h0 : s.net = 0 ∧ s.ones = 0
+  · rw [if_pos h0, if_pos h0]
+    simp [h0, gevents, GEv.pt]
   · rw [if_neg h0, if_neg h0]
-    by_cases h4 : s.net = firstIPv4
+    by_cases h4 : s.net = firstIPv4 ∧ s.ones = 96
     · rw [if_pos h4, if_pos h4]
       have : afterIPv4 ≠ TOP := by decide
-      have hf : firstIPv4 ≠ 0 := by decide
-      simp [h4, gevents, GEv.pt, this, hf]
+      simp [h4, gevents, GEv.pt, this]
     · rw [if_neg h4, if_neg h4]
       have hsz := blockSize_pos' s.ones
       simp only [h0, h4, decide_false, Bool.or_false, List.flatMap_cons, List.flatMap_nil,
@@ -181,7 +210,8 @@ open DnsVerif DnsVerif.Rearr DnsVerif.Spec
 theorem rngOf_ne_nil (s : SubnetDecl) : rngOf s ≠ [] := by
   unfold rngOf; split <;> (try split) <;> simp
 
-theorem addAll_points_ne_nil {S : List SubnetDecl} (hne : S ≠ []) : (addAll S).points.isEmpty = false := by
+theorem addAll_points_ne_nil {S : List SubnetDecl} (hne : S ≠ []) :
+    (addAll S).points.isEmpty = false := by
   rw [addAll_eq]
   cases S with
   | nil => exact absurd rfl hne
